@@ -130,6 +130,9 @@ def family():
     fam["errors"] = docs.doc_of([S("s1", props=[P("p1")], secs=[S("x", props=[P("p1")])]),
                                  S("s2", props=[P("p1")])])
     fam["empty"] = docs.doc_of([])
+    # a document that names a terminology (not loadable: no network, the file does not exist)
+    fam["repo"] = docs.doc_of([S("s1", "stim", props=[P("p1", values=["1", "2"]), P("p2")], secs=[S("s11", "n.s.")])],
+                              repository="file:///nonexistent/odml-terminology.xml")
     return fam
 
 
@@ -175,12 +178,12 @@ VALIDATIONS = ["V:doc", "V:doc.validate", "V:sec", "V:prop", "V:report", "V:reru
 CUSTOMS = ["C:%s:%s" % (k, r) for k in ("odML", "section", "property") for r in ("R1", "R2")] + \
           ["C:section:R1:report", "C:section+property:R1+R2", "C:section:R2:on-section", "C:property:R1:on-property",
            "C:section:R1:reset-only", "C:property:R2:reset-only"]
-EDITS = ["E:section-attached", "E:section-detached", "E:property-attached", "E:property-detached",
+EDITS = ["E:append-value", "E:setitem-value", "E:section-attached", "E:section-detached", "E:property-attached", "E:property-detached",
          "E:section-with-cardinality", "E:property-with-cardinality",
          "K:sec_cardinality", "K:prop_cardinality", "K:val_cardinality", "K:set_values_cardinality"]
 IO = ["S:XML", "S:JSON", "S:YAML", "L:XML", "L:JSON", "L:YAML"]
 ALPHABET = VALIDATIONS + CUSTOMS + EDITS + IO
-REDUCED = ["V:doc", "V:sec", "V:prop", "V:report", "C:section:R1", "C:property:R2", "C:odML:R1", "C:section+property:R1+R2",
+REDUCED = ["V:doc", "V:sec", "V:prop", "V:report", "V:doc.validate", "E:append-value", "C:section:R1", "C:property:R2", "C:odML:R1", "C:section+property:R1+R2",
            "C:section:R1:reset-only",
            "E:section-attached", "E:property-attached", "E:property-with-cardinality", "K:prop_cardinality",
            "K:val_cardinality", "S:XML", "L:JSON", "L:YAML"]
@@ -316,6 +319,19 @@ def apply_event(w, ev, judge):
                 got, want = issues_of(v, [root]), expected_marker_issues(root, reg)
                 if got != want:
                     bad.append(("custom-instance-does-not-report-exactly-its-own-rules", describe_delta(got, want)))
+        elif ev == "E:append-value":
+            # in-place value edits (no setter of the whole list involved)
+            p = w.first_property()
+            if p is not None:
+                if p.dtype and p.dtype.endswith("-tuple"):
+                    p.append("(" + ";".join("5" for _ in range(int(p.dtype[:-6]))) + ")")
+                else:
+                    p.append("x" if p.dtype in ("string", "text") else p.values[0] if p.values else 1)
+        elif ev == "E:setitem-value":
+            p = w.first_property()
+            if p is not None and len(p.values):
+                if not (p.dtype and p.dtype.endswith("-tuple")):
+                    p[0] = "2020-01-02" if p.dtype in ("string", "text") else p.values[-1]
         elif ev == "E:section-attached":
             odml.Section(name="new%d" % w.n, type="t", parent=w.first_section() or w.doc)
         elif ev == "E:section-detached":
@@ -448,6 +464,20 @@ def _run(case, scratch):
         fail("custom-rule-shows-up-in-a-default-validation", sorted(k for k in got if k[2] == "custom_validation")[:3])
     elif got != want:
         fail("default-validation-differs-after-the-history", describe_delta(got, want))
+    # what another process would see: the document written out and read back, validated afresh
+    if name != "errors":
+        try:
+            from odml.tools.xmlparser import XMLWriter, XMLReader
+            from odml.validation import Validation as _V
+            text = str(XMLWriter(w.doc))
+            fresh_doc = XMLReader(ignore_errors=True, show_warnings=False).from_string(text)
+            live = issues_of(_V(w.doc), [w.doc])
+            fresh = issues_of(_V(fresh_doc), [fresh_doc])
+            if live != fresh:
+                fail("a-freshly-loaded-copy-validates-differently", describe_delta(live, fresh))
+        except Exception as exc:
+            fail("event-raises", "writing / reloading the document for the fresh-copy comparison: %s: %s"
+                 % (type(exc).__name__, exc))
     again = default_issues(w)
     if again != got:
         fail("validating-twice-gives-different-issues", describe_delta(again, got))
